@@ -113,8 +113,8 @@ theorem disabled_never_encryptable (w : World) (hr : Reachable w) (i : Nat)
   have hS1 := step_struct w .update hS
   have hoff := steps_off ops (w.step .update) hS1 hoff0
   have hreach : Reachable (ops.foldl World.step (w.step .update)) := by
-    obtain ⟨n0, ops0, rfl⟩ := hr
-    refine ⟨n0, ops0 ++ (.update :: ops), ?_⟩
+    obtain ⟨n0, k0, ops0, rfl⟩ := hr
+    refine ⟨n0, k0, ops0 ++ (.update :: ops), ?_⟩
     rw [List.foldl_append]; rfl
   have hinv := reachable_inv _ hreach
   exact encaps_needs_key _ targets n _ ht (quiet_unpublished _ hinv.1 hoff.2 ids hi)
